@@ -143,7 +143,7 @@ def c_domain(cfgd, lang):
 
 def make_strategy():
     from hypothesis import strategies as st
-    return st.tuples(st.one_of(gen_c.c_program(max_depth=4, max_funcs=2, junk_brackets=False).map(lambda t: ('C', t)),
+    return st.tuples(st.one_of(gen_c.c_program(max_depth=4, max_funcs=2, junk_brackets=False, pp_split=True).map(lambda t: ('C', t)),
                                gen_cpp.cpp_program(max_snippets=4, junk_brackets=False).map(lambda t: ('CPP', t))),
                      st.integers(0, 2 ** 32 - 1), st.integers(0, 2 ** 32 - 1))
 
@@ -250,7 +250,8 @@ def main(ctx):
              {'mod_full_brace_if_chain': '1'}, {'mod_full_brace_if_chain': '2'}, {'mod_full_brace_if_chain': '3'},
              {'mod_full_brace_if': 'remove', 'nl_after_semicolon': 'true', 'mod_full_brace_nl': '2'}]
     nshape = 0
-    for name, src in gen_c.brace_shapes(2 if quick else 3):
+    import itertools
+    for name, src in itertools.chain(gen_c.brace_shapes(2 if quick else 3), gen_c.brace_shapes_cmt(2)):
         nshape += 1
         for bc in bcfgs:
             cases.append(family.Case(src.encode(), 'C', bc, {'kind': 'brace-shape', 'file': 'shape:' + name, 'cfgkind': 'brace-options'}))
